@@ -288,7 +288,7 @@ def check_printed(case, printed):
 
 
 # ------------------------------------------------------------------ psutil over the REAL /proc (worker)
-def real_proc_problems(psutil, workdir, conv_rows_sys, conv_rows_proc, B):
+def real_proc_problems(psutil, workdir, conv_rows_sys, conv_rows_proc, B, T):
     """Open the sockets in this process, ask psutil over the real /proc, compare with the socket API's view."""
     saved = psutil.PROCFS_PATH
     psutil.PROCFS_PATH = "/proc"
@@ -301,12 +301,13 @@ def real_proc_problems(psutil, workdir, conv_rows_sys, conv_rows_proc, B):
         def expected_row(e, with_pid):
             if e["cls"] == "unix":
                 ty = e["sock"].type
-                row = [e["fd"], 1, int(ty), B(e["path"] or b""), B(b""), B(b"NONE")]
+                row = [e["fd"], T("AddressFamily", 1), T("SocketKind", int(ty)), B(e["path"] or b""), B(b""), B(b"NONE")]
             else:
                 fam = socket.AF_INET if e["fam"] == 2 else socket.AF_INET6
                 la = [B(socket.inet_pton(fam, e["laddr"][0])), e["laddr"][1]]
                 ra = [B(socket.inet_pton(fam, e["raddr"][0])), e["raddr"][1]] if e["raddr"] else {"t": "Empty", "a": []}
-                row = [e["fd"], e["fam"], 1 if e["cls"] == "tcp" else 2, la, ra, B(e["status"].encode())]
+                row = [e["fd"], T("AddressFamily", e["fam"]), T("SocketKind", 1 if e["cls"] == "tcp" else 2), la, ra,
+                       B(e["status"].encode())]
             if with_pid:
                 row.append(pid)
             return row
